@@ -147,6 +147,13 @@ class Eval:
                 out = v if first else join(out, v)
                 first = False
             return meet(tr, out) if tr else out
+        # `*&CONST` (promoted reference to an integer constant)
+        if len(pl) == 2 and pl[1] == '*':
+            sd = fn.single_def(base)
+            if sd is not None and sd[1] != 'term' and sd[2][0] == 'use' and sd[2][1][0] == 'k':
+                v = sd[2][1][2].get('v') if isinstance(sd[2][1][2], dict) else None
+                if isinstance(v, int) and not isinstance(v, bool):
+                    return (v, v)
         # projections
         # (x.0) of a checked-arith tuple, or payload of Try::branch / Option
         if len(pl) == 2 and isinstance(pl[1], list) and pl[1][0] == 'f':
@@ -510,6 +517,10 @@ class Eval:
             rv = sd[2]
             if len(pl) == 1 and rv[0] == 'use':
                 cur = rv[1]
+                continue
+            if len(pl) == 2 and pl[1] == '*' and rv[0] == 'use' and rv[1][0] == 'k' and isinstance(rv[1][2], dict) \
+                    and isinstance(rv[1][2].get('v'), int):
+                cur = rv[1]         # `*&CONST` (a promoted reference to an integer constant)
                 continue
             if len(pl) >= 2 and isinstance(pl[1], list) and pl[1][0] == 'f' and rv[0] == 'agg' \
                     and rv[1][0] in ('adt', 'tuple') and pl[1][1] < len(rv[2]):
